@@ -3,6 +3,7 @@ import io
 import itertools
 
 from pyasn1 import error
+from pyasn1.type import base as _base
 
 from pv.core import ir, gen, build, absval, lib, harness, x690, streams
 from pv.core import findings as fz
@@ -52,7 +53,7 @@ def reference(codec, s, T, spec):
     """Outcome on the complete input: (snapshots, final) or None when the complete-input run itself misbehaves
     (yields something that is not a value, leaks an exception): such inputs belong to C08 / C09."""
     items, final = lib.stream_all(codec, io.BytesIO(s), spec)
-    if any(not hasattr(x, 'isValue') for x in items):
+    if any(not isinstance(x, _base.Asn1Item) for x in items):
         return None
     if final != 'stop' and final.status == 'leak':
         return None
@@ -124,7 +125,7 @@ def drive(kind, codec, s, sizes, polls, eof_late, T, spec):
                     problems.append(('underrun-after-end', 'underrun reported after all data was delivered and the end signalled'))
                     final = 'underrun-after-end'
                     break
-            elif x is None or not hasattr(x, 'isValue'):
+            elif x is None or not isinstance(x, _base.Asn1Item):
                 problems.append(('yielded-non-value', 'decoder yielded %r' % (x,)))
                 if not advance():
                     final = 'stuck'
